@@ -19,6 +19,7 @@ def LockTimeout : Nat := 3 * 60 * 1000        -- TransactionLockTimeout
 def LockLoginTimeout : Nat := 5 * 60 * 1000   -- TransactionLockLoginTimeout
 def TaskExpiry : Nat := 30 * 1000
 def ScanInterval : Nat := 3 * 1000
+def TimerPeriod : Nat := 1000                 -- the period of the timer registered by `PlayerMgr.Start`
 
 /-- player status (`Init` and `Abnormal` are never stored in a record: `NewPlayer` is
 always followed by `SetState(Logining, …)`, nothing sets `Abnormal`) -/
@@ -73,6 +74,7 @@ structure Acct where
   task : Option Task := none
   pend : List Nat := []       -- send times of offline requests awaiting the logic server's reply
   nextId : Nat := 0           -- login requests issued so far for this account
+  dropped : List Nat := []    -- ghost: parked login requests the expiry scan forgot without answering them
   deriving Repr
 
 /-- answers given to login callbacks -/
@@ -227,7 +229,7 @@ def Task.expired (t : Task) (now : Nat) : Bool := decide (now > t.start + TaskEx
 /-- what `tryRemoveExpired` may do to an account: forget its parked login (never answered) -/
 def dropExpired (now : Nat) (a : Acct) : Acct :=
   match a.task with
-  | some t => if t.expired now then { a with task := none } else a
+  | some t => if t.expired now then { a with task := none, dropped := t.id :: a.dropped } else a
   | none => a
 
 /-! ### global state -/
@@ -239,7 +241,14 @@ structure State where
   now : Nat := 0
   nextCheck : Nat := 0
 
-/-- The entry points, plus the clock.  `pick` (only meaningful when the expiry scan of the
+/-- The instants in `(a, b]` at which the periodic timer registered by `PlayerMgr.Start` at time 0 fires
+(`timer.Mgr.AddTimer(1 s)`: `time.AfterFunc`, re-armed after each callback), in order. -/
+def firings (a b : Nat) : List Nat :=
+  (List.range (b / TimerPeriod - a / TimerPeriod)).map fun i => (a / TimerPeriod + i + 1) * TimerPeriod
+
+/-- The entry points, plus the clock.  `adv` lets time pass with nothing else happening (the periodic update
+is then the explicit `tick`); `advT` lets time pass with the 1 s timer of `PlayerMgr.Start` running: `update`
+runs at every firing on the way, reading the clock at that instant.  `pick` (only meaningful when the expiry scan of the
 kick-wait manager runs during the operation) names the account whose expired parked login
 the scan removes: the code keeps only the last expired entry of a Go map iteration, so
 which one goes is the runtime's choice. -/
@@ -256,6 +265,7 @@ inductive Op
   | offReply (u : Nat) (pick : Option Nat)
   | tick
   | adv (ms : Nat)
+  | advT (ms : Nat)
   deriving Repr
 
 /-- output of one operation: the return value (if the entry point has one) and what it emitted -/
@@ -321,12 +331,15 @@ def step (s : State) : Op → State × Out
       fire (setAcct s u { a with pend := rest }) u pick [] true
   | .tick => ({ s with accts := fun u => tickAcct s.now (s.accts u) }, {})
   | .adv ms => ({ s with now := s.now + ms }, {})
+  | .advT ms =>
+    ({ s with accts := fun u => (firings s.now (s.now + ms)).foldl (fun a t => tickAcct t a) (s.accts u),
+              now := s.now + ms }, {})
 
 /-- the account an operation addresses (`tick`/`adv`: none) -/
 def Op.uid : Op → Option Nat
   | .login u .. | .closed u _ | .logined u .. | .reonline u | .logoutReq u | .logoutDone u
   | .abnormal u | .swBegin u | .swEnd u | .offReply u _ => some u
-  | .tick | .adv _ => none
+  | .tick | .adv _ | .advT _ => none
 
 /-- one recorded step of a history: the operation, the clock when it was issued, what came out -/
 structure Step where
